@@ -61,6 +61,7 @@ def rebuild_sites(prog):
 
 
 def check(prog, run):
+    check_heal_to_fixpoint(prog, run, "H2")
     # ---- C1 copy-constructor completeness
     r = run.rule("C1", "every site that rebuilds a schema element from an existing one (constructor call copying >= 2 attributes "
                        "of one source object) supplies every constructor parameter: a parameter left to its default is an attribute "
@@ -143,6 +144,18 @@ def check(prog, run):
             run.report(r, "%s:ResolverMap.merge_resolvers:not-merged(%s)" % (RMAP, a), mr.where(),
                        "merge_resolvers never reads other.%s: it is lost when resolver maps are merged (and by Schema.clone)" % a)
     derived = {"_possible_types", "_is_valid", "_literal_types_cache", "implementations"}
+    # a slot that every construction starts at a constant (a transient flag, an empty memo) holds nothing of the source to carry
+    for k_ in [sch] + [b for b in sch.mro()[1:] if hasattr(b, "methods")]:
+        for mname_ in ("__init__", "_invalidate_and_rebuild_caches"):
+            mi_ = k_.methods.get(mname_)
+            if mi_ is None:
+                continue
+            for n_ in own_nodes(mi_.node):
+                if isinstance(n_, (ast.Assign, ast.AnnAssign)) and n_.value is not None and isinstance(n_.value, (ast.Constant, ast.Dict, ast.List, ast.Set)) \
+                        and not getattr(n_.value, "keys", None) and not getattr(n_.value, "elts", None):
+                    for t_ in (n_.targets if isinstance(n_, ast.Assign) else [n_.target]):
+                        if isinstance(t_, ast.Attribute) and isinstance(t_.value, ast.Name) and t_.value.id == "self":
+                            derived.add(t_.attr)
     slots = sch.slots() or []
     ctor_kw = set()
     for n in own_nodes(clone.node):
@@ -512,3 +525,47 @@ def check_sibling_hook_arguments(prog, run, rule_id, modules):
                                        "asked about a different attribute of the same kind of element" % (c.name, m.name, hook, k, i, major))
     if not n:
         raise AnalysisError("C14.%s: no predicate hook with two call sites found" % rule_id)
+
+
+def check_heal_to_fixpoint(prog, run, rule_id):
+    """Whenever a replacement changed the registries, the references are healed - the nested replacements included."""
+    from .. import boolx
+    r = run.rule(rule_id, "Schema._replace_types_and_directives: on every execution on which something was replaced (the flag guarding "
+                          "_invalidate_and_rebuild_caches is set) fix_type_references(self) is called - no other state gates it. The healing "
+                          "traversal registers the types it rebuilds through this very method, and each such registration has to heal "
+                          "again: a type rebuilt because a member lost its type is itself referenced from elsewhere, and those references "
+                          "are only re-pointed by the next traversal (the recursion ends when nothing is replaced)", 1)
+    rep = prog.get_func(SCHEMA, "Schema._replace_types_and_directives")
+    run.looked_at(rep)
+    guards = [x for x in own_nodes(rep.node) if isinstance(x, ast.If)
+              and any(isinstance(y, ast.Call) and isinstance(y.func, ast.Attribute) and y.func.attr == "_invalidate_and_rebuild_caches" for y in ast.walk(x))]
+    if len(guards) != 1:
+        raise AnalysisError("C14.%s: the invalidation guard of _replace_types_and_directives was not found" % rule_id)
+    flags = [x.id for x in ast.walk(guards[0].test) if isinstance(x, ast.Name)]
+    if not flags:
+        raise AnalysisError("C14.%s: the invalidation guard tests no local flag" % rule_id)
+    flag = flags[0]
+    try:
+        _ev, exits = boolx.walk_under(rep.node, lambda t: True if t == flag else None)
+    except ValueError as e:
+        raise AnalysisError("C14.%s: %s" % (rule_id, e))
+    n_ok, bad = 0, None
+    for kind, st, env in exits:
+        if kind == "raise":
+            continue
+        if not any(t == flag and v for t, v in env.get(boolx.TESTS, ())):
+            continue
+        healed = any((isinstance(c.func, ast.Name) and c.func.id == "fix_type_references") or
+                     (isinstance(c.func, ast.Attribute) and c.func.attr == "fix_type_references") for c in env.get(boolx.CALLS, ()))
+        if healed:
+            n_ok += 1
+        elif bad is None:
+            bad = {t: v for t, v in env.get(boolx.TESTS, ()) if t != flag and "is None" not in t and " in " not in t}
+    r.instance("executions with a replacement that heal the references: %d%s" % (n_ok, "" if bad is None else "; one does not"))
+    if not n_ok:
+        raise AnalysisError("C14.%s: no execution with a replacement calls fix_type_references" % rule_id)
+    if bad is not None:
+        run.report(r, "%s:Schema._replace_types_and_directives:healing-gated" % SCHEMA, rep.where(guards[0]),
+                   "an execution on which something was replaced does not call fix_type_references (when %s): the registrations the "
+                   "healing traversal makes are not healed in turn, and references to a rebuilt type keep pointing at the old object"
+                   % (", ".join("%s=%s" % kv for kv in sorted(bad.items())[-3:]) or "some other test fails"))
